@@ -22,6 +22,9 @@ type uncleCase struct {
 	F, Dist int
 	Nonce   uint64
 	Class   string
+	// Known: the uncle's header is already known to the chain as a side header (headers become known without
+	// their seal having been checked, e.g. in a sparsely checked header-first batch): same verdict
+	Known bool
 }
 
 // uncleScenario builds the stub chain, the uncle (unsealed) and the carrying block's header.
@@ -61,10 +64,13 @@ func probeUncle(cfg *params.ChainConfig, net *refhdr.Network, c uncleCase) strin
 	su := sealedAs(u, eval, vU, c.Nonce)
 	want := toRef(su).Accept(ethParams(su.Number.Uint64()))
 	blk := types.NewBlock(bh, nil, []*types.Header{types.CopyHeader(su)}, nil)
+	if c.Known {
+		stub.Add(types.CopyHeader(su))
+	}
 	err := engineByName("tester").e.VerifyUncles(stub, blk)
 	if (err == nil) != want.Accept {
-		return fmt.Sprintf("block #%d (version %d) carrying an uncle of height %d (scheduled version %d) sealed %s: VerifyUncles=%s but the reference, under the uncle's own version, says accept=%v (%s)",
-			bh.Number, vN, u.Number, vU, c.Class, errStr(err), want.Accept, want.Why)
+		return fmt.Sprintf("block #%d (version %d) carrying an uncle of height %d (scheduled version %d, header already known: %v) sealed %s: VerifyUncles=%s but the reference, under the uncle's own version, says accept=%v (%s)",
+			bh.Number, vN, u.Number, vU, c.Known, c.Class, errStr(err), want.Accept, want.Why)
 	}
 	return ""
 }
@@ -106,12 +112,14 @@ func partUncleVersion(run *ev.Run, col *collector) {
 					run.Cap(fmt.Sprintf("uncle-version F=%d: no nonce of class %s among 4000", F, cl))
 					continue
 				}
-				c := uncleCase{F, dist, nonce, cl}
-				run.Eval(1)
-				det := map[string]interface{}{"kind": "uncle-version", "fork": F, "dist": dist, "nonce": nonce, "class": cl}
-				if col.check("uncle-version", "uncle-seal-checked-under-its-own-version", fmt.Sprintf("testnet2/F=%d/v%d->v%d/%s", F, vU, vN, cl), det,
-					func() string { return probeUncle(cfg, net, c) }) {
-					run.Class(fmt.Sprintf("uncle-version/v%d->v%d/dist=%d/%s", vU, vN, dist, cl))
+				for _, known := range []bool{false, true} {
+					c := uncleCase{F, dist, nonce, cl, known}
+					run.Eval(1)
+					det := map[string]interface{}{"kind": "uncle-version", "fork": F, "dist": dist, "nonce": nonce, "class": cl, "known": known}
+					if col.check("uncle-version", "uncle-seal-checked-under-its-own-version", fmt.Sprintf("testnet2/F=%d/v%d->v%d/%s/known=%v", F, vU, vN, cl, known), det,
+						func() string { return probeUncle(cfg, net, c) }) {
+						run.Class(fmt.Sprintf("uncle-version/v%d->v%d/dist=%d/%s/known=%v", vU, vN, dist, cl, known))
+					}
 				}
 			}
 		}
